@@ -49,7 +49,8 @@ VALUES = ["1", "foo", "1.0-1", "a, b (>= 1)", "", "x y", "multi\n line2", "\n on
 BADVALUES = ["ends\n", "blank\n\n line", "nospace\nline2"]
 SORTKEYS = {"len": lambda x: (len(x), x.lower()),
             "rev": lambda x: x.lower()[::-1],
-            "neg": lambda x: tuple(-ord(c) for c in x.lower())}
+            "neg": lambda x: tuple(-ord(c) for c in x.lower()),
+            "orig": lambda x: str(x)}      # the key function sees the preserved spelling
 MUT = ("set", "del", "pop", "setdefault", "clear", "order_first", "order_last", "order_before",
        "order_after", "sort", "update")
 
@@ -94,7 +95,7 @@ def generate(seed, run, tier):
         elif k in ("order_before", "order_after"):
             st["k"], st["ref"] = _key(rq), _key(rq)
         elif k == "sort":
-            st["key"] = rq.choice([None, None, "len", "rev", "neg"])
+            st["key"] = rq.choice([None, None, "len", "rev", "neg", "orig"])
         elif k == "update":
             st["items"] = [[_key(rq), rq.choice(VALUES)] for _ in range(rq.randint(1, 3))]
         steps.append(st)
